@@ -19,6 +19,9 @@ Gen/ProxyFacts.vos Gen/ProxyFacts.vok Gen/ProxyFacts.required_vos: Gen/ProxyFact
 Gen/ConfigGen.vo Gen/ConfigGen.glob Gen/ConfigGen.v.beautified Gen/ConfigGen.required_vo: Gen/ConfigGen.v 
 Gen/ConfigGen.vio: Gen/ConfigGen.v 
 Gen/ConfigGen.vos Gen/ConfigGen.vok Gen/ConfigGen.required_vos: Gen/ConfigGen.v 
+Gen/Access.vo Gen/Access.glob Gen/Access.v.beautified Gen/Access.required_vo: Gen/Access.v 
+Gen/Access.vio: Gen/Access.v 
+Gen/Access.vos Gen/Access.vok Gen/Access.required_vos: Gen/Access.v 
 Model/Limiter.vo Model/Limiter.glob Model/Limiter.v.beautified Model/Limiter.required_vo: Model/Limiter.v Base/Prelude.vo
 Model/Limiter.vio: Model/Limiter.v Base/Prelude.vio
 Model/Limiter.vos Model/Limiter.vok Model/Limiter.required_vos: Model/Limiter.v Base/Prelude.vos
@@ -58,6 +61,9 @@ Model/WSPool.vos Model/WSPool.vok Model/WSPool.required_vos: Model/WSPool.v Base
 Model/Shutdown.vo Model/Shutdown.glob Model/Shutdown.v.beautified Model/Shutdown.required_vo: Model/Shutdown.v Base/Prelude.vo
 Model/Shutdown.vio: Model/Shutdown.v Base/Prelude.vio
 Model/Shutdown.vos Model/Shutdown.vok Model/Shutdown.required_vos: Model/Shutdown.v Base/Prelude.vos
+Model/Lockset.vo Model/Lockset.glob Model/Lockset.v.beautified Model/Lockset.required_vo: Model/Lockset.v 
+Model/Lockset.vio: Model/Lockset.v 
+Model/Lockset.vos Model/Lockset.vok Model/Lockset.required_vos: Model/Lockset.v 
 Proofs/LimiterProofs.vo Proofs/LimiterProofs.glob Proofs/LimiterProofs.v.beautified Proofs/LimiterProofs.required_vo: Proofs/LimiterProofs.v Base/Prelude.vo Model/Limiter.vo
 Proofs/LimiterProofs.vio: Proofs/LimiterProofs.v Base/Prelude.vio Model/Limiter.vio
 Proofs/LimiterProofs.vos Proofs/LimiterProofs.vok Proofs/LimiterProofs.required_vos: Proofs/LimiterProofs.v Base/Prelude.vos Model/Limiter.vos
@@ -94,6 +100,9 @@ Proofs/WSPoolProofs.vos Proofs/WSPoolProofs.vok Proofs/WSPoolProofs.required_vos
 Proofs/ShutdownProofs.vo Proofs/ShutdownProofs.glob Proofs/ShutdownProofs.v.beautified Proofs/ShutdownProofs.required_vo: Proofs/ShutdownProofs.v Base/Prelude.vo Model/Shutdown.vo
 Proofs/ShutdownProofs.vio: Proofs/ShutdownProofs.v Base/Prelude.vio Model/Shutdown.vio
 Proofs/ShutdownProofs.vos Proofs/ShutdownProofs.vok Proofs/ShutdownProofs.required_vos: Proofs/ShutdownProofs.v Base/Prelude.vos Model/Shutdown.vos
+Proofs/LocksetProofs.vo Proofs/LocksetProofs.glob Proofs/LocksetProofs.v.beautified Proofs/LocksetProofs.required_vo: Proofs/LocksetProofs.v Model/Lockset.vo
+Proofs/LocksetProofs.vio: Proofs/LocksetProofs.v Model/Lockset.vio
+Proofs/LocksetProofs.vos Proofs/LocksetProofs.vok Proofs/LocksetProofs.required_vos: Proofs/LocksetProofs.v Model/Lockset.vos
 Cases/LimiterCase.vo Cases/LimiterCase.glob Cases/LimiterCase.v.beautified Cases/LimiterCase.required_vo: Cases/LimiterCase.v Base/Prelude.vo Model/Limiter.vo
 Cases/LimiterCase.vio: Cases/LimiterCase.v Base/Prelude.vio Model/Limiter.vio
 Cases/LimiterCase.vos Cases/LimiterCase.vok Cases/LimiterCase.required_vos: Cases/LimiterCase.v Base/Prelude.vos Model/Limiter.vos
@@ -184,3 +193,6 @@ Props/C20.vos Props/C20.vok Props/C20.required_vos: Props/C20.v Base/Prelude.vos
 Props/C19.vo Props/C19.glob Props/C19.v.beautified Props/C19.required_vo: Props/C19.v Base/Prelude.vo Model/Shutdown.vo Proofs/ShutdownProofs.vo Model/WSPool.vo Proofs/WSPoolProofs.vo
 Props/C19.vio: Props/C19.v Base/Prelude.vio Model/Shutdown.vio Proofs/ShutdownProofs.vio Model/WSPool.vio Proofs/WSPoolProofs.vio
 Props/C19.vos Props/C19.vok Props/C19.required_vos: Props/C19.v Base/Prelude.vos Model/Shutdown.vos Proofs/ShutdownProofs.vos Model/WSPool.vos Proofs/WSPoolProofs.vos
+Props/C12.vo Props/C12.glob Props/C12.v.beautified Props/C12.required_vo: Props/C12.v Gen/Access.vo Model/Lockset.vo Proofs/LocksetProofs.vo
+Props/C12.vio: Props/C12.v Gen/Access.vio Model/Lockset.vio Proofs/LocksetProofs.vio
+Props/C12.vos Props/C12.vok Props/C12.required_vos: Props/C12.v Gen/Access.vos Model/Lockset.vos Proofs/LocksetProofs.vos
